@@ -18,7 +18,9 @@ def load_known():
 def save_replay(prop, q, rec):
     d = os.path.join(os.environ.get("VERIF_OUT_DIR") or os.path.join(VERIF, "out"), "replays", prop)
     os.makedirs(d, exist_ok=True)
-    path = os.path.join(d, "%s.json" % "".join(c if c.isalnum() or c in "._-" else "_" for c in q.name))
+    import hashlib
+    path = os.path.join(d, "%s.%s.json" % ("".join(c if c.isalnum() or c in "._-" else "_" for c in q.name)[:120],
+                                           hashlib.sha1(q.name.encode()).hexdigest()[:8]))
     doc = {
         "property": prop,
         "query": q.name,
